@@ -1,4 +1,5 @@
 import EchVerif.Lemmas.Splice
+import EchVerif.Lemmas.SpecRefine
 import EchVerif.Lemmas.Conn
 /-
   C03 — an accepted inner hello is reconstructed byte-exactly.
@@ -194,6 +195,94 @@ theorem C03_names_from_inner (H : Hpke) (keys : List Key) (t : Tr) (i : Hello)
     (hi : (newConn H keys t).st.inner = some i) :
     (newConn H keys t).st.serverName = i.d.serverName ∧ (newConn H keys t).st.alpn = i.d.alpn := by
   simp [St.serverName, St.alpn, hi]
+
+/-- **Refinement to the draft-level specification.** Whenever the model reconstructs an inner hello
+    from a decrypted `EncodedClientHelloInner` `pt` and marshals it to the record `rec` handed to the
+    backend, `rec` is exactly `Spec.specInner pt sid outerExtensions` — the ClientHelloInner the client
+    committed to according to draft-ietf-tls-esni 5.1, computed on bytes by a definition written
+    from the draft's text, independently of the model of client_hello.go: padding stripped, the outer
+    hello's legacy_session_id substituted, each `ech_outer_extensions` reference replaced in place by
+    the referenced outer extension. (`outer.exts` in 16-bit range: true of every parsed hello.) -/
+theorem C03_refines_spec (outer inner : Hello) (pt rec : Bytes)
+    (hor : ∀ e ∈ outer.exts, e.typ < 65536 ∧ e.data.length < 65536)
+    (h : decodeInner outer pt = .ok inner) (hm : inner.marshal = .ok rec) :
+    Spec.specInner pt outer.sessionId (encExts outer.exts) = some rec := by
+  have hnoext := fun i (hi : decodeInner outer pt = .ok i) => hi
+  unfold decodeInner at h
+  split at h
+  · simp at h
+  · rename_i m hlp
+    split at h
+    · simp at h
+    · rename_i h0 hp
+      split at h
+      · simp at h
+      · rename_i hty
+        split at h
+        · simp at h
+        · rename_i newExt hexp
+          split at h
+          · simp at h
+          · rename_i d hd
+            split at h
+            · simp at h
+            · simp only [Except.ok.injEq] at h
+              subst h
+              -- shape of the decrypted encoding
+              obtain ⟨l24, rfl⟩ := lp24_inv hlp
+              obtain ⟨body, after, trail, hbuf, hl2, hmb0, hbody, hrnd, hver, hpe, hz, hno⟩ := parseClientHello_inv _ h0 hp
+              have hty' : (h0.d.ech.map (·.typ)) = some 1 := by simpa using hty
+              have hne0 : h0.noExt = false := by
+                cases hn : h0.noExt with
+                | false => rfl
+                | true =>
+                  exfalso
+                  have hex := (hno hn).1
+                  rw [hex] at hpe
+                  simp only [parseExtensions, parseExtensionsFrom, Except.ok.injEq] at hpe
+                  rw [← hpe] at hty'
+                  simp at hty'
+              obtain ⟨hza, _⟩ := hz hty'
+              have hbuf' : u8 1 ++ (u24 pt.length ++ pt) =
+                  u8 1 ++ (u24 (body ++ after).length ++ ((body ++ after) ++ trail)) := by
+                rw [hbuf]; simp only [List.append_assoc]
+              have hcut := List.append_cancel_left hbuf'
+              obtain ⟨hu, hpt⟩ := List.append_inj hcut (by simp [u24])
+              have hn := u24_inj l24 hl2 hu
+              have htr : trail = [] := by
+                have := congrArg List.length hpt
+                simp only [List.length_append] at this
+                rw [hn] at this
+                simp only [List.length_append] at this
+                exact List.eq_nil_of_length_eq_zero (by omega)
+              subst htr
+              simp only [List.append_nil] at hpt
+              -- fields of the decrypted encoding
+              obtain ⟨s1, s2, s3, s4, s5, hb0⟩ := marshalBody_inv h0 body hne0 hmb0
+              have hfields := fields_body h0.legacyVersion h0.random h0.sessionId h0.cipherSuites h0.compression
+                (encExts h0.exts) after hrnd s1 s2 s3 s4
+              rw [← hb0, ← hpt] at hfields
+              -- extension lists
+              have hr0 := TLS.parseClientHello_exts_range _ h0 hp
+              have hie := extsOf_parseExts _ _ (parseExts_encExts h0.exts hr0)
+              have hoe := extsOf_parseExts _ _ (parseExts_encExts outer.exts hor)
+              have hex := expand_expandExts outer.exts h0.exts false newExt hexp
+              -- the marshalled record
+              obtain ⟨b2, hmb2, l2a, l2b, hrec⟩ := marshalRec_inv _ rec hm
+              obtain ⟨t1, t2, t3, t4, t5, hb2⟩ := marshalBody_inv _ b2 (by simpa using hne0) hmb2
+              simp only at hb2 t1 t4 hrec
+              have haz : (after.all fun x => x == 0) = true := by simpa [allZero] using hza
+              simp only [Spec.specInner, hfields, haz, hie, hoe, hex, encExts_raw]
+              subst hrec
+              subst hb2
+              generalize (u16 h0.legacyVersion ++ h0.random ++ (u8 (List.length outer.sessionId) ++ outer.sessionId) ++
+                (u16 (List.length h0.cipherSuites) ++ h0.cipherSuites) ++
+                (u8 (List.length h0.compression) ++ h0.compression) ++
+                (u16 (List.length (encExts newExt)) ++ encExts newExt)) = B
+              have hlen : (u8 1 ++ u24 B.length ++ B).length = 4 + B.length := by simp [u8, u24]; omega
+              rw [hlen]
+              simp only [List.append_assoc]
+              simp
 
 /-- non-vacuity of the characterisation: a concrete outer list and reference list -/
 example : refsLoop [10, 13] [⟨0, [1]⟩, ⟨10, [2]⟩, ⟨43, []⟩, ⟨13, [3]⟩] = .ok [⟨10, [2]⟩, ⟨13, [3]⟩] := by
